@@ -18,7 +18,7 @@ func init() { Register(c09{}) }
 func (c09) ID() string    { return "C09" }
 func (c09) Level() string { return "fault_enumeration" }
 func (c09) Rule() string {
-	return "workload = seeded writer history (shape x page size x codec x batch grammar) x destination kind {io.Writer only; io.Writer+StringWriter+ByteWriter+ReaderFrom}; cases = for EVERY sink call k of the fault-free run: err0 transient (always) and torn / full (all bytes accepted, and an error) / err0-sticky / torn-sticky, each returning one of eight error values (plain, net.Error-like temporary+timeout, wrapped EAGAIN, io.ErrShortWrite, io.ErrUnexpectedEOF, os.ErrClosed, exactly io.EOF, a value of uncomparable type) (quick: seeded 1-in-4 of k, thorough: every k; 1% of thorough workloads are of the large class - pages of 100..1200 records - and sample these kinds 1-in-4). A case is non-trivial when its fault actually fired (the sink returned the injected error); distinct = distinct (workload digest, k, kind)."
+	return "workload = seeded writer history (shape x page size x codec x batch grammar) x destination kind {io.Writer only; io.Writer+StringWriter+ByteWriter+ReaderFrom}; cases = for EVERY sink call k of the fault-free run: err0 transient (always) and torn / full (all bytes accepted, and an error) / err0-sticky / torn-sticky, each returning one of nine error values (plain, net.Error-like temporary+timeout, wrapped EAGAIN, io.ErrShortWrite, io.ErrUnexpectedEOF, os.ErrClosed, exactly io.EOF, a value of uncomparable type, an error whose Unwrap returns nil) (quick: seeded 1-in-4 of k, thorough: every k; 1% of thorough workloads are of the large class - pages of 100..1200 records - and sample these kinds 1-in-4). A case is non-trivial when its fault actually fired (the sink returned the injected error); distinct = distinct (workload digest, k, kind)."
 }
 func (c09) Assumptions() []string {
 	return []string{
